@@ -66,6 +66,10 @@ CHECKS = {
          "Everything the statement quantifies over is finite and is enumerated completely (exhaustive: true), except the integer and string arguments of the conversions, which are covered by lattices/alias classes and by all strings up to a length bound plus all 1-edit mutants of every name.",
          "Trusted: a [bool;7]/bitmask reference set and name tables written from the statement.",
          "DESIGN.md §4 C19"),
+ 'C20': ("complete product of value lattices x two data formats (serde_json, bincode) for every serializable type, and for each of the 16 ts_* modules the complete product of the value lattice (write exact, read back) and of the signed/unsigned integer lattices incl. unit carries and range ends (read: Ok iff representable, never a panic), against i128 instants",
+         "Round trips are executed for every lattice value of every type through a self-describing and a positional format; every ts_* module is driven through #[serde(with)] wrappers with every lattice integer on the signed path, the unsigned path (up to u64::MAX) and as a positional i64; the option variants with Some/None.",
+         "Trusted: i128 instants on RefCal. Crate built with the serde feature (the baseline suite does not compile this code). Two genuine defects are listed in known_findings.json.",
+         "DESIGN.md §4 C20"),
 }
 hooks_commits = subprocess.run(['git','-C','/repo','log','--format=%H','--grep=^verif hooks'],capture_output=True,text=True).stdout.split()
 m = {
